@@ -80,6 +80,23 @@ def cd_canon(cd):
     }
 
 
+class Misbehaved(Exception):
+    """Raised by build(): the library objects just constructed from legal arguments do not describe the cdict
+    (observed while building the workload; the worker turns it into a verdict only for properties it concerns)."""
+
+    def __init__(self, kind, detail):
+        super().__init__(f"{kind}: {detail}")
+        self.kind, self.detail = kind, detail
+
+
+def _check_registry(c, cd):
+    for inst, b in cd["bbs"].items():
+        bb = c.blackboxes.get(inst)
+        if bb is None or set(bb.inputs()) != set(b["inputs"]) or set(bb.outputs()) != set(b["outputs"]):
+            got = None if bb is None else (sorted(bb.inputs()), sorted(bb.outputs()))
+            raise Misbehaved("blackbox_definition_changed", f"BlackBox of instance {inst!r} was declared with pins {sorted(b['inputs'])} -> {sorted(b['outputs'])} but now reports {got} (the declaring code went on using its own containers)")
+
+
 class NetName(str):
     """A str subclass as node name (what a parser token, numpy.str_ or an annotated net name would be)."""
 
@@ -115,11 +132,21 @@ def build(cg, cd, via="graph", variant="auto"):
         key = (b["name"], tuple(b["inputs"]), tuple(b["outputs"]))
         if variant == "bbobjects":
             ins, outs = list(b["inputs"]), list(b["outputs"])
-            if j % 3 == 0:
+            sel = (j + len(cd["nodes"])) % 4
+            if sel == 0:
                 ins, outs = (x for x in ins), iter(outs)
-            elif j % 3 == 1:
+            elif sel == 1:
                 ins, outs = tuple(ins), set(outs)
+            elif sel == 2:
+                pass
+            else:
+                ins, outs = set(ins), set(outs)
             bbs[inst] = cg.BlackBox(b["name"], ins, outs)
+            if isinstance(outs, set):
+                # the caller goes on using its own working sets (e.g. to declare the next cell of a family)
+                outs.add("zz_later_out")
+                if isinstance(ins, set):
+                    ins.clear()
             continue
         if key not in bbtypes:
             bbtypes[key] = cg.BlackBox(b["name"], list(b["inputs"]), list(b["outputs"]))
@@ -147,8 +174,14 @@ def build(cg, cd, via="graph", variant="auto"):
             else:
                 g.add_edge(nm(u), nm(v))
         c = cg.Circuit(name=cd["name"], graph=g if len(g) else None, blackboxes=bbs or None)
+        if variant == "bbobjects":
+            _check_registry(c, cd)
         return c
     # via the construction API
+    if variant == "bbobjects":
+        for inst, b in cd["bbs"].items():
+            if set(bbs[inst].inputs()) != set(b["inputs"]) or set(bbs[inst].outputs()) != set(b["outputs"]):
+                raise Misbehaved("blackbox_definition_changed", f"BlackBox {b['name']!r} was declared with pins {sorted(b['inputs'])} -> {sorted(b['outputs'])} but now reports {sorted(bbs[inst].inputs())} -> {sorted(bbs[inst].outputs())} (the declaring code went on using its own containers)")
     c = cg.Circuit(name=cd["name"])
     pins = {f"{inst}.{p}" for inst, b in cd["bbs"].items() for p in b["inputs"] + b["outputs"]}
     for j, (n, t, o) in enumerate(cd["nodes"]):
